@@ -35,12 +35,18 @@ def _dict_keys(d):
 
 
 def _read_keys(f, var):
-    """String literals used as `'k' in var` / `var['k']`."""
+    """String literals used as `'k' in var` / `var['k']` / `var.get('k')`."""
     req, tested = set(), set()
     for n in f.own_nodes():
         if isinstance(n, ast.Subscript) and text(n.value) == var and \
                 isinstance(n.slice, ast.Constant) and isinstance(n.slice.value, str):
             req.add(n.slice.value)
+        # var.get('k') / var.get('k', default): the key is read where present
+        if isinstance(n, ast.Call) and isinstance(n.func, ast.Attribute) and \
+                n.func.attr in ("get", "pop", "setdefault") and text(n.func.value) == var \
+                and n.args and isinstance(n.args[0], ast.Constant) and \
+                isinstance(n.args[0].value, str):
+            req.add(n.args[0].value)
         if isinstance(n, ast.Compare) and len(n.ops) == 1 and \
                 isinstance(n.ops[0], (ast.In, ast.NotIn)) and \
                 text(n.comparators[0]) == var and isinstance(n.left, ast.Constant):
@@ -113,6 +119,41 @@ def r1_keys(ctx):
     else:
         ctx.bad("C13.R1", f2d, fd, "fiber2dict writes %s but dict2fiber reads "
                 "%s" % (sorted(w), sorted(req)))
+    # a reader gives up (exit) for what the writer cannot have produced: a
+    # key that is absent, a value of the wrong kind -- never for a value that
+    # is merely empty or zero (an empty fiber is written with coords: [],
+    # payloads: []; a name may be ''), i.e. never on the truth value of what
+    # was read
+    from ..cfg import enclosing_stmt as _es
+    n_exit = 0
+    for rd_ in (parse, d2f, ctx.method("Fiber", "parse")):
+        for c in rd_.own_nodes():
+            if not (isinstance(c, ast.Call) and text(c.func) in ("exit", "sys.exit", "quit")):
+                continue
+            n_exit += 1
+            stx = _es(c)
+            lossy = None
+            for clause in pat.guard_dnf(ctx, rd_, stx, asserts=False, inline_=True) or []:
+                for a in clause:
+                    if a[0] == "truth" and not a[1].startswith(("isinstance(", "callable(")) \
+                            and " in " not in a[1] and "notin" not in a[1]:
+                        lossy = a
+                    elif a[0] in ("==", "!=") and (
+                            {"[]", "''", "0", "{}", "()"} & set(a[1:]) or
+                            any(x.startswith("len(") for x in a[1:])):
+                        lossy = a
+            if lossy is not None:
+                ctx.bad("C13.R1", rd_, c, "%s gives up when `%s` is %s: a value "
+                        "that is present but empty / zero (what dump writes for "
+                        "an empty fiber: coords: [], payloads: []) is refused, so "
+                        "the dump of such an object does not load"
+                        % (rd_.qual, lossy[1], "false" if lossy[0] == "truth" and not lossy[2]
+                           else "true" if lossy[0] == "truth" else "so"),
+                        text_="%s gives up on absence only" % rd_.qual)
+            else:
+                ctx.ok("C13.R1", rd_, c, "gives up on an absent key / wrong kind only",
+                       text_="%s gives up on absence only" % rd_.qual)
+    ctx.floor("C13.R1", n_exit, 6, "exits of the YAML readers")
     # rank-0 root goes through payload2dict / the non-fiber leg
     def gat(fn, st):
         from ..cfg import atomic_guards
@@ -339,14 +380,33 @@ def r2_default(ctx):
     calls = [c for c in f.own_nodes() if isinstance(c, ast.Call)]
     fu = [c for c in calls if text(c.func) == "Fiber.fromUncompressed"]
     ff = [c for c in calls if text(c.func) == "Tensor.fromFiber"]
-    cs = [n for n in f.own_nodes() if isinstance(n, ast.Assign)
-          and text(n.targets[0]) == "shape" and
-          text(n.value).replace(" ", "") == "Tensor._calc_shape(root)"]
+    # the shape handed on: the caller's, or the nest's own when none is given
+    # (a guarded re-assignment of the parameter, or a conditional expression)
+    sh_ok = False
+    sv = pat.kwarg(ff[0], "shape", 2) if ff else None
+    if sv is not None:
+        none = pat.A("is", "shape", "None")
+        alts = []
+        if isinstance(sv, ast.Name):
+            facts, is_param = ctx.ty.facts_at(f, sv.id, sv)
+            for fa in facts:
+                if fa.kind == "expr" and not fa.path:
+                    for g_, e in pat.ifexp_alternatives(
+                            ctx, f, fa.value,
+                            frozenset(pat.catoms_of_guards(ctx, f, fa.stmt))):
+                        alts.append((g_, text(e).replace(" ", "")))
+                else:
+                    alts.append((frozenset(), "?"))
+            if is_param and sv.id == "shape":
+                alts.append((frozenset([pat.A("is not", "shape", "None")]), "shape"))
+        else:
+            alts = [(g_, text(e).replace(" ", ""))
+                    for g_, e in pat.ifexp_alternatives(ctx, f, sv)]
+        derived = [a for a in alts if a[1] == "Tensor._calc_shape(root)" and none in a[0]]
+        given = [a for a in alts if a[1] == "shape" and none not in a[0]]
+        sh_ok = bool(derived) and bool(given) and len(derived) + len(given) == len(alts)
     ok = fu and text(pat.kwarg(fu[0], "default")) == "default" and ff and \
-        text(pat.kwarg(ff[0], "default")) == "default" and \
-        text(pat.kwarg(ff[0], "shape", 2)) == "shape" and cs and any(
-            (text(t).replace(" ", ""), pol) == ("shapeisNone", True)
-            for t, pol in guards(cs[0]))
+        text(pat.kwarg(ff[0], "default")) == "default" and sh_ok
     if ok:
         ctx.ok("C13.R2", f, ff[0], "shape taken from the nest when not given; "
                "default forwarded to the fiber and the tensor")
